@@ -197,6 +197,11 @@ func (c *Check) Finish() int {
 	}
 	b, _ := json.MarshalIndent(e, "", " ")
 	dir := filepath.Join(Root(), "evidence")
+	if os.Getenv("VERIF_MUTANT") != "" {
+		// detection demos and seeded changes are substituted through the overlay: their runs must not
+		// overwrite the evidence of the tree itself
+		dir = filepath.Join(Root(), ".build", "evidence-mutant")
+	}
 	_ = os.MkdirAll(dir, 0o755)
 	if err := os.WriteFile(filepath.Join(dir, c.Property+".json"), append(b, '\n'), 0o644); err != nil {
 		fmt.Println("ENGINE-ERROR cannot write evidence:", err)
